@@ -126,8 +126,8 @@ def plain_result(v, path, ids, issues):
     a = strict_atom(v)
     if a is not None:
         return {"k": "scalar", "v": a, "ch": []}
-    if isinstance(v, vmod.Obj):
-        return {"k": "obj", "v": list(S.NOVAL), "ch": []}
+    if isinstance(v, vmod.Obj) or (callable(v) and getattr(v, "__module__", None) == "vmod"):
+        return {"k": "obj", "v": list(S.NOVAL), "ch": []}      # what a recording target returned / an imported recording target
     if isinstance(v, functools.partial):
         # what the partial holds is observable: identities of the bound arguments (not part of the plain data)
         for i, a in enumerate(v.args):
